@@ -52,6 +52,7 @@ type Case struct {
 	Kind  string    `json:"kind"` // map | obj
 	Pairs []Pair    `json:"pairs"`
 	Ops   []Operand `json:"ops"`
+	Vars  bool      `json:"vars,omitempty"` // the ** operands are bound to variables first and re-inspected afterwards
 	Got   string    `json:"got,omitempty"`
 	Want  string    `json:"want,omitempty"`
 }
@@ -74,13 +75,20 @@ func litObj(ps []Pair, extra []string) string {
 	return "{" + strings.Join(s, ", ") + "}"
 }
 
+func (c Case) opSource(i int) string {
+	if c.Ops[i].IsObj {
+		return litObj(c.Ops[i].Pairs, nil)
+	}
+	return litMap(c.Ops[i].Pairs, nil)
+}
+
 func (c Case) source() string {
 	extra := []string{}
-	for _, op := range c.Ops {
-		if op.IsObj {
-			extra = append(extra, "**"+litObj(op.Pairs, nil))
+	for i := range c.Ops {
+		if c.Vars {
+			extra = append(extra, fmt.Sprintf("**op%d", i))
 		} else {
-			extra = append(extra, "**"+litMap(op.Pairs, nil))
+			extra = append(extra, "**"+c.opSource(i))
 		}
 	}
 	if c.Kind == "obj" {
@@ -165,12 +173,29 @@ func judge(c *Case) (sig, detail string) {
 	in := interp.Shared()
 	w := &world{in: in, env: object.NewEnclosedEnv(in.Global), eq: map[string]bool{}}
 	src := c.source()
+	before := []string{}
+	if c.Vars {
+		for i := range c.Ops {
+			if o := in.Run(fmt.Sprintf("op%d := %s", i, c.opSource(i)), interp.Opts{Env: w.env}); o.Kind != interp.Value {
+				return "", ""
+			}
+			before = append(before, w.ins(fmt.Sprintf("[op%d.repr, op%d.keys, op%d.values, op%d.items, {**op%d}.repr] if op%d.kindOf?(Obj) && !op%d.kindOf?(Map) else [op%d.repr, op%d.keys, op%d.values, op%d.len]", i, i, i, i, i, i, i, i, i, i, i)))
+		}
+	}
 	if o := in.Run("m := "+src, interp.Opts{Env: w.env}); o.Kind != interp.Value {
 		if o.Kind == interp.HostPanic {
 			return c.Kind + ":host-panic", src + " gave " + o.Show()
 		}
 		c.Got = o.Show()
 		return c.Kind + ":literal-does-not-evaluate", src + " gave " + o.Show()
+	}
+	// an operand describes the same pairs after it was unpacked as before
+	for i := range before {
+		after := w.ins(fmt.Sprintf("[op%d.repr, op%d.keys, op%d.values, op%d.items, {**op%d}.repr] if op%d.kindOf?(Obj) && !op%d.kindOf?(Map) else [op%d.repr, op%d.keys, op%d.values, op%d.len]", i, i, i, i, i, i, i, i, i, i, i))
+		if after != before[i] {
+			c.Got, c.Want = after, before[i]
+			return c.Kind + ":operand-changed-by-unpacking", fmt.Sprintf("op%d := %s; m := %s; afterwards op%d describes %s, before %s", i, c.opSource(i), src, i, after, before[i])
+		}
 	}
 	fail := func(what, got, want string) (string, string) {
 		c.Got, c.Want = got, want
@@ -460,6 +485,7 @@ func genMapKeys(t *rapid.T, max, base int, label string) []Pair {
 func genCase(t *rapid.T) Case {
 	c := Case{Kind: rapid.SampledFrom([]string{"map", "map", "obj"}).Draw(t, "kind")}
 	nops := rapid.SampledFrom([]int{0, 0, 1, 1, 2, 3}).Draw(t, "nops")
+	c.Vars = nops > 0 && rapid.Bool().Draw(t, "operands in variables")
 	if c.Kind == "obj" {
 		c.Pairs = genPairs(t, objKeys, 10, 100, "own")
 		for i := 0; i < nops; i++ {
